@@ -1,6 +1,6 @@
 CONSTANTS
   RawDom <- Dom
-  Idiom = "coerce"
+  Idiom = "bail_unit"
   MaxIssues = 3
 SPECIFICATION Spec
 INVARIANTS TypeOK ReturnConforms LimitConforms
